@@ -868,6 +868,111 @@ fn morx_fields(out: &mut Vec<Field>, d: &[u8], rng: &mut Rng) {
     }
 }
 
+/// Fields of one glyph of a glyf table, found through the pristine loca offsets.
+pub fn locate_glyf(d: &[u8], offsets: &[usize], rng: &mut Rng) -> Vec<Field> {
+    let mut out = Vec::new();
+    let n = d.len();
+    let glyphs: Vec<(usize, usize, usize)> = offsets
+        .windows(2)
+        .enumerate()
+        .filter(|(_, w)| w[1] > w[0] && w[1] <= n && w[1] - w[0] >= 10)
+        .map(|(g, w)| (g, w[0], w[1]))
+        .collect();
+    if glyphs.is_empty() {
+        return out;
+    }
+    let composites: Vec<&(usize, usize, usize)> = glyphs
+        .iter()
+        .filter(|(_, s, _)| d[*s] & 0x80 != 0)
+        .collect();
+    let &(g, s, e) = if !composites.is_empty() && rng.pct(45) {
+        *rng.pick(&composites)
+    } else if rng.pct(70) {
+        &glyphs[rng.usize_below(glyphs.len().min(400))]
+    } else {
+        rng.pick(&glyphs)
+    };
+    f(&mut out, "glyf.numberOfContours", s, 2, n);
+    f(&mut out, "glyf.xMin", s + 2, 2, n);
+    f(&mut out, "glyf.yMin", s + 4, 2, n);
+    f(&mut out, "glyf.xMax", s + 6, 2, n);
+    f(&mut out, "glyf.yMax", s + 8, 2, n);
+    let ncont = i16::from_be_bytes([d[s], d[s + 1]]);
+    if ncont >= 0 {
+        let nc = ncont as usize;
+        if nc > 0 && s + 10 + 2 * nc + 2 <= e {
+            f(&mut out, "glyf.simple.endPt[k]", s + 10 + 2 * pick_index(rng, nc), 2, n);
+            f(&mut out, "glyf.simple.endPt[last]", s + 10 + 2 * (nc - 1), 2, n);
+            let il = s + 10 + 2 * nc;
+            f(&mut out, "glyf.simple.instructionLength", il, 2, n);
+            let ilen = be16(d, il).unwrap_or(0);
+            let flags = il + 2 + ilen;
+            if flags < e {
+                f(&mut out, "glyf.simple.flag0", flags, 1, n);
+                f(&mut out, "glyf.simple.flagOrCoord", flags + rng.usize_below(e - flags), 1, n);
+                f(&mut out, "glyf.simple.lastByte", e - 1, 1, n);
+            }
+        }
+    } else {
+        // walk the component records
+        let mut comps: Vec<(usize, usize)> = Vec::new(); // (offset of flags, record length)
+        let mut p = s + 10;
+        loop {
+            let Some(flags) = be16(d, p) else { break };
+            let mut len = 4 + if flags & 1 != 0 { 4 } else { 2 };
+            if flags & 0x8 != 0 {
+                len += 2;
+            } else if flags & 0x40 != 0 {
+                len += 4;
+            } else if flags & 0x80 != 0 {
+                len += 8;
+            }
+            if p + len > e {
+                break;
+            }
+            comps.push((p, len));
+            p += len;
+            if flags & 0x20 == 0 || comps.len() > 64 {
+                break;
+            }
+        }
+        if let Some(&(c, len)) = comps.get(rng.usize_below(comps.len().max(1))) {
+            f(&mut out, "glyf.component.flags", c, 2, n);
+            f(&mut out, "glyf.component.glyphIndex", c + 2, 2, n);
+            f(&mut out, "glyf.component.arg", c + 4, 2, n);
+            if len > 8 {
+                f(&mut out, "glyf.component.scale", c + len - 2, 2, n);
+            }
+            // a component that refers to the composite itself
+            fw(&mut out, "glyf.component.self", c + 2, (g as u16).to_be_bytes().to_vec(), n);
+        }
+        if let (Some(&(first, _)), Some(&(last, last_len))) = (comps.first(), comps.last()) {
+            if comps.len() >= 2 {
+                // WE_HAVE_INSTRUCTIONS carried by the first component instead of the last one
+                // (readers accept the flag on any component)
+                let mut span = d[first..last + last_len].to_vec();
+                let lf = last - first;
+                let had = span[lf] & 0x01 != 0;
+                span[0] |= 0x01;
+                span[lf] &= !0x01;
+                if had {
+                    fw(&mut out, "glyf.composite.instructionsFlagOnFirst", first, span, n);
+                }
+            }
+            // MORE_COMPONENTS on the last record
+            let mut fl = d[last..last + 2].to_vec();
+            fl[1] |= 0x20;
+            fw(&mut out, "glyf.composite.moreComponentsOnLast", last, fl, n);
+            // instruction length after the last record
+            let after = last + last_len;
+            if after + 2 <= e {
+                f(&mut out, "glyf.composite.instructionLength", after, 2, n);
+            }
+        }
+    }
+    out
+}
+
 /// Fields of the container (file-level).
 pub fn locate_file(d: &[u8], rng: &mut Rng) -> Vec<Field> {
     let mut out = Vec::new();
